@@ -50,6 +50,10 @@ func CreatePodFromDaemonSetReplicaSet(scheme *runtime.Scheme, replicaset *datado
 		hash := comparison.GenerateHashFromEDSResourceNodeAnnotation(replicaset.Namespace, edsName, node.Annotations)
 		if hash != "" {
 			templateCopy.ObjectMeta.Annotations[datadoghqv1alpha1.MD5NodeExtendedDaemonSetAnnotationKey] = hash
+		} else {
+			// no override on this node: a value carried by the template itself (e.g. copied from a running pod)
+			// would make the pod look outdated at every sync
+			delete(templateCopy.ObjectMeta.Annotations, datadoghqv1alpha1.MD5NodeExtendedDaemonSetAnnotationKey)
 		}
 	}
 
